@@ -157,7 +157,9 @@ def chain_future(
     def copy(a: "Future[_T]") -> None:
         if b.done():
             return
-        if hasattr(a, "exc_info") and a.exc_info() is not None:  # type: ignore
+        if a.cancelled():
+            b.cancel()
+        elif hasattr(a, "exc_info") and a.exc_info() is not None:  # type: ignore
             future_set_exc_info(b, a.exc_info())  # type: ignore
         else:
             a_exc = a.exception()
